@@ -205,7 +205,7 @@ theorem callExt_frame (ext : Ext F) (st : St F) (f : String) (args dflt : List (
   unfold callExt
   split
   · exact Frame.refl _
-  · exact ⟨ScopesExt.refl _, Nat.le_refl _, Nat.le_refl _, rfl, id, ⟨[], rfl⟩⟩
+  · exact ⟨ScopesExt.refl _, Nat.le_refl _, Nat.le_refl _, rfl, fun _ => rfl, ⟨[], rfl⟩⟩
 
 /-- entering a block: one more scope; leaving it: one less -/
 theorem push_pop_frame (st st' : St F) (h : Frame (pushScope st) st') : Frame st (popScope st') := by
